@@ -265,7 +265,136 @@ def special_lines(rng, quick, c20=False):
         for v in (LD_ONE, 0x4000c90fdaa22168c235, 0, 0x7fff8000000000000000):
             add('CALLLD', 'r', 'r:%x' % v, 'r:0')
             add('CALLLD2', 'r', 'r:%x' % v, 'r:0')
+    out += memseq_lines(rng, quick, c20)
     return out
+
+
+# ---------------------------------------------------------------- sequences of accesses to one cell (@MEMSEQ)
+MS_INT = ['i8', 'u8', 'i16', 'u16', 'i32', 'u32', 'i64', 'u64', 'p']
+MS_K, MS_VMUL, MS_VADD = 1000003, 5, 0x1234567
+
+
+def memseq_lines(rng, quick, c20=False):
+    """several memory accesses of DIFFERENT types (signedness, size) to the SAME address in one function: load-load,
+    store-load, load-store-load, longer mixes with partially overlapping offsets, straight-line / across a block boundary /
+    all loads before all uses.  Cell patterns with the top bit of every byte set, clear, and random.  (An optimiser that
+    identifies two accesses by address and size only -- value numbering of memory, load forwarding -- gives the second
+    access the extension of the first.)  c20: the emitted C must not break C's aliasing rules at -O2, so only types of one
+    size (signed / unsigned variants may alias) and 8-bit types are mixed there."""
+    out = []
+    n = [0]
+    top = 0xf1e2d3c4b5a69788
+    pats = [top, 0x7f6e5d4c3b2a1908, 0x80, 0x8000, 0x80000000, 1 << 63]
+
+    def ok(tys):
+        if not c20:
+            return True
+        sizes = set(TYPE_SIZE[t] for t in tys if TYPE_SIZE[t] != 1)
+        return len(sizes) <= 1
+
+    def add(steps, cell=None, val=None):
+        n[0] += 1
+        cell = rng.choice(pats + [rng.getrandbits(64)]) if cell is None else cell
+        val = (rng.getrandbits(64) | 0x8080808080808080) if val is None else val
+        form = 'b'
+        out.append('ms%d @MEMSEQ iii r mi64,%s,1,0,0:%x r:%x seq=%s' % (n[0], form, cell, val, ','.join(steps)))
+
+    def deco(steps, k):
+        """variant k of a step list: plain, uses deferred, a block boundary between the accesses"""
+        k %= 4
+        if k == 1:
+            return steps + ['X']
+        if k == 2:
+            return steps[:1] + ['B'] + steps[1:]
+        if k == 3:
+            return steps[:1] + ['B'] + steps[1:] + ['X']
+        return steps
+    k = 0
+    for t1 in MS_INT:
+        for t2 in MS_INT:
+            if not ok([t1, t2]):
+                continue
+            k += 1
+            # load-load (also t1 == t2: the legitimately redundant load)
+            add(deco(['L' + t1, 'L' + t2], k), cell=top if k % 3 else None)
+            if not quick or k % 2:
+                add(deco(['L' + t1, 'L' + t2], k + 1), cell=rng.choice(pats))
+            # store-load and store-load-load
+            add(deco(['S' + t1, 'L' + t2], k))
+            if not quick or k % 3 == 0:
+                add(deco(['S' + t1, 'L' + t2, 'L' + t1], k + 2))
+    for _ in range(64 if quick else 600):        # load-store-load, the store of any type
+        t1, t2, t3 = rng.choice(MS_INT), rng.choice(MS_INT), rng.choice(MS_INT)
+        if rng.random() < 0.6:                   # first and last access: same size, opposite signedness
+            t3 = {'i': 'u', 'u': 'i'}.get(t1[0], 'i') + (t1[1:] if t1 != 'p' else '64')
+        if ok([t1, t2, t3]):
+            add(deco(['L' + t1, 'S' + t2, 'L' + t3], rng.randrange(4)))
+    for _ in range(80 if quick else 1500):       # longer mixes, partially overlapping accesses inside the 16-byte cell
+        steps, tys = [], []
+        for _ in range(rng.randint(3, 8)):
+            t = rng.choice(MS_INT)
+            off = rng.choice([0, 0, 0, 1, 2, 4, 8 - TYPE_SIZE[t], 8])
+            tys.append(t)
+            steps.append(('L' if rng.random() < 0.65 else 'S') + t + ('@%d' % off if off else ''))
+            if rng.random() < 0.15:
+                steps.append('B')
+        if rng.random() < 0.3:
+            steps.append('X')
+        if ok(tys):
+            add(steps)
+    return out
+
+
+def memseq_parse(c):
+    """-> list of (kind 'L'|'S', type, offset) of a @MEMSEQ case"""
+    st = []
+    for t in c['seq'].split(','):
+        if t in ('B', 'X'):
+            continue
+        body, _, off = t.partition('@')
+        st.append((body[0], body[1:], int(off) if off else 0))
+    return st
+
+
+def memseq_store_requests(c):
+    """oracle requests (documented truncating stores) of the successive stored values"""
+    v = c['y']['val']
+    req = []
+    for kind, ty, off in memseq_parse(c):
+        if kind == 'S':
+            req.append('st %s %x' % (ty, v))
+            v = (v * MS_VMUL + MS_VADD) & M64
+    return req
+
+
+def memseq_load_requests(c, stans):
+    """runs the sequence on the cell with the oracle's store bytes; -> oracle requests (documented extending loads) of
+    the successive loads; c['ms_final'] = final content of the cell"""
+    cell = le_bytes(c['x']['val'], 16) + [0xA5] * 16
+    req = []
+    k = 0
+    for kind, ty, off in memseq_parse(c):
+        if kind == 'S':
+            bs = stans[k].split()[1]
+            k += 1
+            for i in range(len(bs) // 2):
+                cell[off + i] = int(bs[2 * i:2 * i + 2], 16)
+        else:
+            req.append('ld %s %x' % (ty, sum(b << (8 * i) for i, b in enumerate(cell[off:off + TYPE_SIZE[ty]]))))
+    c['ms_final'] = cell[:16]
+    return req
+
+
+def memseq_expect(c, ldans):
+    e = dict(ret=0, retmask=M64, writes={}, nan=None, dontcare=set())
+    r = 7
+    for a in ldans:
+        r = (r * MS_K + int(a.split()[1], 16)) & M64
+    e['ret'] = r
+    e['init'] = {128 + i: b for i, b in enumerate(le_bytes(c['x']['val'], 16))}
+    for i, b in enumerate(c['ms_final']):
+        e['writes'][128 + i] = b
+    return e
 
 
 def ld_double(v):
